@@ -1,0 +1,19 @@
+//go:build verif
+
+package vaxis
+
+// Hooks for the verification harness under /verif (property C18). Compiled
+// only with `-tags verif`; they change no behaviour.
+
+// VerifC18SGRFormats returns the four SGR format variables of sequences.go
+// that applyQuirks may rewrite (VAXIS_FORCE_LEGACY_SGR).
+func VerifC18SGRFormats() [4]string {
+	return [4]string{fgIndexSet, fgRGBSet, bgIndexSet, bgRGBSet}
+}
+
+// VerifC18SetSGRFormats stores values previously obtained from
+// VerifC18SGRFormats, so that one process can exercise the producers both
+// before and after the quirk was applied.
+func VerifC18SetSGRFormats(f [4]string) {
+	fgIndexSet, fgRGBSet, bgIndexSet, bgRGBSet = f[0], f[1], f[2], f[3]
+}
